@@ -391,6 +391,7 @@ type ovPhase struct {
 	prevProcs int
 	prevGC    int
 	n         int
+	live      uint64 // heap in use after the last collection
 }
 
 // poolCalibration: does sync.Pool, in this process configuration, hand back what was put last?
@@ -417,10 +418,19 @@ func beginOverlapPhase() *ovPhase {
 }
 
 // tick is called between cases: garbage is collected only here, never while RPCs are in flight
+// (when: every 256 cases, unless the heap has not grown by half (at least 32 MB) since the last
+// collection: a library that retains something for every decoration ever made - a tree under check
+// may - would otherwise make every one of these forced single-P collections walk gigabytes)
 func (ph *ovPhase) tick() {
 	ph.n++
 	if ph.n%256 == 0 {
-		runtime.GC()
+		var ms runtime.MemStats
+		runtime.ReadMemStats(&ms)
+		if ms.HeapAlloc > ph.live+ph.live/2+32<<20 {
+			runtime.GC()
+			runtime.ReadMemStats(&ms)
+			ph.live = ms.HeapAlloc
+		}
 	}
 }
 
